@@ -196,9 +196,15 @@ func (c *Ctx) WholeFieldOnlyFresh(ob *core.Obligation, rel, typ, field string, a
 			ob.Fail(key, pos, typ+"."+field+" is replaced as a whole by a map that is not freshly made ("+core.ShortVal(fs.St.Val)+"): entries already known are forgotten and the foreign map becomes interpreter state")
 			continue
 		}
-		if allowResetIn != nil && !allowResetIn[core.SSAName(fs.Fn)] {
-			ob.Fail(key, pos, typ+"."+field+" is reset in "+core.SSAName(fs.Fn)+", which is not one of the functions allowed to (re)initialise it")
-			continue
+		if allowResetIn != nil {
+			// only the construction of a new state value may set the field: the struct written is a
+			// local being built (composite literal / fresh allocation), not an existing state
+			if root := addrRoot(fs.St.Addr); root != nil {
+				if _, isAlloc := root.(*ssa.Alloc); !isAlloc {
+					ob.Fail(key, pos, typ+"."+field+" of an existing state is reset in "+core.SSAName(fs.Fn)+": what was accumulated so far is dropped")
+					continue
+				}
+			}
 		}
 		ob.Pass(key, pos, "initialised with a fresh map")
 	}
